@@ -23,8 +23,8 @@ ASSUMPTIONS = [
 ]
 BOUNDS = {
     #            alphabet, max_traj, depth, undedup alphabet, undedup depth
-    'quick': ('c07q', 3, 7, 'c07q', 4),
-    'thorough': ('c07', 4, 10, 'c07q', 5),
+    'quick': ('c07', 4, 10, 'c07q', 4),
+    'thorough': ('c07', 6, 14, 'c07q', 5),
 }
 
 
